@@ -1015,3 +1015,4 @@ RULES = [
 
 from . import common as _common_purity
 RULES = RULES + _common_purity.purity_rules("C14")
+RULES = RULES + _common_purity.bundle_rules("C14")
